@@ -84,7 +84,17 @@ func runC07(c *Ctx) {
 				nm := calleeName(call)
 				if call.Common().IsInvoke() && isDeleteLTX(nm) || (!call.Common().IsInvoke() && isDeleteLTX(nm) && strings.Contains(nm, "ReplicaClient")) {
 					nDel++
-					c.check(allowed[fnName(root)], rule, "DeleteLTXFiles called from "+fnName(root), c.pos(call), "a retention function", "replica files are deleted from a function that is not one of the retention functions")
+					okWho := allowed[fnName(root)]
+					if hosts := helperHosts(fnName(root)); len(hosts) > 0 {
+						okWho = true
+						for _, h := range hosts {
+							if !allowed[h] {
+								okWho = false
+							}
+						}
+						nDel += len(hosts) - 1
+					}
+					c.check(okWho, rule, "DeleteLTXFiles called from "+fnName(root), c.pos(call), "a retention function", "replica files are deleted from a function that is not one of the retention functions")
 				}
 				if isDeleteAll(nm) && (call.Common().IsInvoke() || strings.Contains(nm, "ReplicaClient")) {
 					c.fail(rule, "DeleteAll called from "+fnName(root), c.pos(call), "production code wipes the whole replica")
@@ -108,13 +118,22 @@ func runC07(c *Ctx) {
 
 func c07Function(c *Ctx, fn *ssa.Function) {
 	name := fnName(fn)
-	dels := callsTo(fn, isDeleteLTX)
-	if len(dels) != 1 {
-		c.fail("R2-delete-predicate", name+": exactly one DeleteLTXFiles call", c.P.Pos(fn.Pos()), fmt.Sprintf("found %d", len(dels)))
+	vdels := callSitesV(fn, isDeleteLTX)
+	if len(vdels) != 1 {
+		c.fail("R2-delete-predicate", name+": exactly one DeleteLTXFiles call", c.P.Pos(fn.Pos()), fmt.Sprintf("found %d", len(vdels)))
 		return
 	}
-	del := dels[0]
-	list := del.Common().Args[len(del.Common().Args)-1]
+	vdel := vdels[0]
+	vdel.Desc = "DeleteLTXFiles"
+	del := vdel.Call()
+	// the list handed to DeleteLTXFiles, as a value of fn (looking through the parameters
+	// of an extracted removal helper along the call string)
+	list := resolveThroughCtx(del.Common().Args[len(del.Common().Args)-1], vdel.Ctx)
+	// the function that builds the list: fn itself, or the helper the scan was moved into
+	body := fn
+	if li, ok := list.(ssa.Instruction); ok && li.Parent() != nil && li.Parent() != fn && isNewHelper(li.Parent()) {
+		body = li.Parent()
+	}
 
 	// appends feeding the deletion list
 	var appends []*ssa.Call
@@ -203,10 +222,10 @@ func c07Function(c *Ctx, fn *ssa.Function) {
 			truthFact(vCall("(time.Time).After", created, thr), true, "createdAt.After(threshold)"),
 			truthFact(vCall("(time.Time).Before", thr, created), true, ""),
 		}
-		es := cutEdges(fn, recent...)
+		es := cutEdges(body, recent...)
 		c.floor(rule, len(es), 1, "too-recent branch in "+name)
 		for _, e := range es {
-			r := reachable(fn, e.From.Succs[e.Succ], nil)
+			r := reachable(body, e.From.Succs[e.Succ], nil)
 			bad := false
 			for _, ap := range appends {
 				if r[ap.Block()] {
@@ -226,7 +245,7 @@ func c07Function(c *Ctx, fn *ssa.Function) {
 		c.check(lv[1] == 1 && lv[0] == 1, rule, name+": coverage bound from level 1, candidates from level 0", c.P.Pos(fn.Pos()), "LTXFiles(1) and LTXFiles(0)", fmt.Sprintf("unexpected listing levels %v", lv))
 		// retention disabled (<= 0) deletes nothing
 		ret := vOr(vParam("retention"), vFieldLoad("DB.L0Retention", nil))
-		c.requireGuard(rule, fn, Site{del, "DeleteLTXFiles"}, cmpFact(ret, token.GTR, vConstInt(0), "retention > 0"))
+		c.requireGuardV(rule, fn, vdel, cmpFact(ret, token.GTR, vConstInt(0), "retention > 0"))
 	}
 
 	// R3 keep-newest: list given to DeleteLTXFiles
@@ -235,18 +254,17 @@ func c07Function(c *Ctx, fn *ssa.Function) {
 		// lastInfo: the value the last element of the list is compared with
 		var lastInfo ssa.Value
 		var neqAlts []FP
-		for _, b := range fn.Blocks {
-			ifi, ok := lastInstr(b).(*ssa.If)
-			if !ok {
-				continue
-			}
-			bo, ok := ifi.Cond.(*ssa.BinOp)
-			if !ok || (bo.Op != token.EQL && bo.Op != token.NEQ) {
-				continue
-			}
-			for _, pair := range [][2]ssa.Value{{bo.X, bo.Y}, {bo.Y, bo.X}} {
-				if isLastElemOf(pair[0], inList) && isFileInfoPtr(pair[1].Type()) {
-					lastInfo = pair[1]
+		// the comparison may be the branch condition itself or part of a named boolean
+		for _, b := range body.Blocks {
+			for _, in := range b.Instrs {
+				bo, ok := in.(*ssa.BinOp)
+				if !ok || (bo.Op != token.EQL && bo.Op != token.NEQ) {
+					continue
+				}
+				for _, pair := range [][2]ssa.Value{{bo.X, bo.Y}, {bo.Y, bo.X}} {
+					if isLastElemOf(pair[0], inList) && isFileInfoPtr(pair[1].Type()) {
+						lastInfo = pair[1]
+					}
 				}
 			}
 		}
@@ -284,7 +302,7 @@ func c07Function(c *Ctx, fn *ssa.Function) {
 				}
 				if inc.Pred == nil {
 					// not a phi: the untrimmed list reaches the delete directly
-					ok2, n := guardedBy(del, neqAlts...)
+					ok2, n := guardedSite(vdel, neqAlts...)
 					ok = n > 0 && ok2
 				}
 				c.check(ok, rule, name+": untrimmed "+desc+" provably does not end with the last listed file", c.pos(del),
@@ -303,13 +321,26 @@ func c07Function(c *Ctx, fn *ssa.Function) {
 			// processedAll is cleared only on the too-recent edge
 			if strings.Contains(name, "L0Retention") {
 				thr := vResult(nameIs("(time.Time).Add"), 0)
-				for _, b := range fn.Blocks {
+				for _, b := range body.Blocks {
 					for _, in := range b.Instrs {
 						phi, ok := in.(*ssa.Phi)
 						if !ok {
 							break
 						}
 						if phi.Type().String() != "bool" {
+							continue
+						}
+						// a flag variable: only constants (and merges of them) flow into it; the
+						// phi of an `a && b` expression is not one
+						isFlag := true
+						for _, e := range phi.Edges {
+							switch e.(type) {
+							case *ssa.Const, *ssa.Phi:
+							default:
+								isFlag = false
+							}
+						}
+						if !isFlag {
 							continue
 						}
 						for i, e := range phi.Edges {
@@ -334,24 +365,21 @@ func c07Function(c *Ctx, fn *ssa.Function) {
 	{
 		const rule = "R4-retention-enabled-gate"
 		en := vOr(vFieldLoad("DB.RetentionEnabled", nil), vFieldLoad("Compactor.RetentionEnabled", nil))
-		c.requireGuard(rule, fn, Site{del, "DeleteLTXFiles"}, truthFact(en, true, "RetentionEnabled"))
+		c.requireGuardV(rule, fn, vdel, truthFact(en, true, "RetentionEnabled"))
 	}
 
 	// R7 local removals range over the same list
 	{
 		const rule = "R7-local-removals-same-list"
 		n := 0
-		for _, call := range calls(fn) {
-			nm := calleeName(call)
-			if nm != "os.Remove" && nm != "slot:Compactor.LocalFileDeleter" {
-				continue
-			}
+		for _, vcall := range callSitesV(fn, nameIs("os.Remove", "slot:Compactor.LocalFileDeleter")) {
+			call := vcall.Call()
 			n++
 			// the loop this call sits in ranges over the deletion list
 			ok := false
-			for _, b := range fn.Blocks {
+			for _, b := range call.Parent().Blocks {
 				for _, in := range b.Instrs {
-					if ia, isIA := in.(*ssa.IndexAddr); isIA && inList(ia.X) && b.Dominates(call.Block()) {
+					if ia, isIA := in.(*ssa.IndexAddr); isIA && inList(resolveThroughCtx(ia.X, vcall.Ctx)) && (b == call.Block() || b.Dominates(call.Block())) {
 						ok = true
 					}
 				}
